@@ -17,6 +17,38 @@ type C11Case struct {
 	Show string `json:"show"`
 	Ext  bool   `json:"ext"`            // all extension flags on / off
 	Verb string `json:"verb,omitempty"` // spelling of "MAIL FROM:" / "RCPT TO:" ("" = upper case); commands are case-insensitive
+	// Pre: a predecessor line of the same command with every parameter set, which the line under test must
+	// not inherit anything from: "" none | "tmp" the backend answered it 451 | "open" it was accepted (for
+	// MAIL: the transaction is open and MAIL is repeated) | "refused" it was refused 5xx for its last parameter
+	Pre string `json:"pre,omitempty"`
+}
+
+// c11Predecessor returns the predecessor line, the number of backend calls of the judged kind it causes, and
+// the class of reply it must get.
+func c11Predecessor(cmd, route string, ext bool) (line string, calls int, class int) {
+	box := "ok@pre.example"
+	if route == "tmp" {
+		box = "tmp@pre.example"
+	}
+	var params string
+	if cmd == "MAIL" {
+		params = " SIZE=77 BODY=8BITMIME AUTH=pre@x.example"
+		if ext {
+			params += " SMTPUTF8 REQUIRETLS RET=FULL ENVID=pre"
+		}
+	} else if ext {
+		params = " NOTIFY=SUCCESS,DELAY ORCPT=rfc822;pre@o.example RRVS=2014-04-03T23:01:00Z"
+	}
+	verb := map[string]string{"MAIL": "MAIL FROM:", "RCPT": "RCPT TO:"}[cmd]
+	switch route {
+	case "tmp":
+		return verb + "<" + box + ">" + params + "\r\n", 1, 4
+	case "open":
+		return verb + "<" + box + ">" + params + "\r\n", 1, 2
+	case "refused":
+		return verb + "<" + box + ">" + params + " XNOSUCHPARAM=1\r\n", 0, 5
+	}
+	return "", 0, 0
 }
 
 func c11Ext(on bool) (h.Config, ref.Ext) {
@@ -36,14 +68,21 @@ func evalC11(c C11Case) (*h.Finding, ref.Class) {
 	if verb == "" {
 		verb = map[string]string{"MAIL": "MAIL FROM:", "RCPT": "RCPT TO:"}[c.Cmd]
 	}
+	preLine, preCalls, preClass := c11Predecessor(c.Cmd, c.Pre, c.Ext)
 	if c.Cmd == "MAIL" {
-		in = "EHLO c.example\r\n" + verb + c.Arg + "\r\n"
+		in = "EHLO c.example\r\n" + preLine + verb + c.Arg + "\r\n"
 	} else {
-		in = "EHLO c.example\r\nMAIL FROM:<ok@a.example>\r\n" + verb + c.Arg + "\r\n"
+		in = "EHLO c.example\r\nMAIL FROM:<ok@a.example>\r\n" + preLine + verb + c.Arg + "\r\n"
 		nPre = 3
+	}
+	if preLine != "" {
+		nPre++
 	}
 	o := h.RunS(cfg, be, h.OneSeg([]byte(in)), h.TermEOF)
 	desc := fmt.Sprintf("%s%s argument %q (extensions %s)", c.Cmd, map[bool]string{true: " spelled " + c.Verb, false: ""}[c.Verb != ""], c.Arg, map[bool]string{true: "on", false: "off"}[c.Ext])
+	if preLine != "" {
+		desc += fmt.Sprintf(" after the %s line %q", map[string]string{"tmp": "backend-refused (451)", "open": "accepted", "refused": "refused (5xx)"}[c.Pre], strings.TrimSpace(preLine))
+	}
 	if f := o.Sanity("c11", desc); f != nil {
 		return f, ref.Unspecified
 	}
@@ -61,8 +100,12 @@ func evalC11(c C11Case) (*h.Finding, ref.Class) {
 			calls = append(calls, e)
 		}
 	}
-	if c.Cmd == "RCPT" {
-		// the Mail call of the prologue is not what is judged
+	if preLine != "" {
+		// the predecessor itself is a fixed, valid line: it must have been treated as designed, or the case says nothing
+		if got := o.Replies[nPre-1]; got.Class() != preClass || len(calls) < preCalls {
+			return h.F("c11-predecessor", "%s: the predecessor line was answered %s with %d backend calls", desc, got.String(), len(calls)), ref.Unspecified
+		}
+		calls = calls[preCalls:]
 	}
 	var class ref.Class
 	var wantBox []string
@@ -158,7 +201,7 @@ func C11(tier string) int {
 	if tier == "thorough" {
 		strLen, mutParams = 6, 2
 	}
-	run.Rule = fmt.Sprintf("(a) grammar-derived lines: %d path forms (null, plain, source-routed, quoted local part, quoted pairs, address literal, atext specials, UTF-8) x every subset of <=3 parameters with distinct keywords out of %d MAIL / %d RCPT parameter variants; (b) EVERY single-point mutation (delete, duplicate, replace by each of %q) of the lines with <=%d parameters; (c) ALL strings of <=%d characters over %q as the text after 'MAIL FROM:' and after 'RCPT TO:'; all x extension flags {all on, all off}. Distinct by construction (enumeration; mutations may coincide, counted once per generating position); non-trivial = classified valid or definitely invalid by the independent reference grammar (ref/pathgrammar.go) - the 'unspecified' class is only checked for 'reply 250 <=> exactly one callback'. Oracle: valid => 250 and the backend receives exactly the mailbox and the decoded option values, every other field zero; invalid => 5xx and no callback.", len(c11Paths), len(c11MailParams), len(c11RcptParams), c11Mutators, mutParams, strLen, c11Alphabet)
+	run.Rule = fmt.Sprintf("(a) grammar-derived lines: %d path forms (null, plain, source-routed, quoted local part, quoted pairs, address literal, atext specials, UTF-8) x every subset of <=3 parameters with distinct keywords out of %d MAIL / %d RCPT parameter variants; (b) EVERY single-point mutation (delete, duplicate, replace by each of %q) of the lines with <=%d parameters; (c) ALL strings of <=%d characters over %q as the text after 'MAIL FROM:' and after 'RCPT TO:'; all x extension flags {all on, all off}; (d) every unmutated line of (a) once more as the line FOLLOWING a predecessor of the same command that sets every parameter and was {refused by the backend with 451, accepted (MAIL repeated inside the open transaction / a further RCPT), refused with 5xx for an unknown last parameter} - the judged line must reach the backend with its own values only. Distinct by construction (enumeration; mutations may coincide, counted once per generating position); non-trivial = classified valid or definitely invalid by the independent reference grammar (ref/pathgrammar.go) - the 'unspecified' class is only checked for 'reply 250 <=> exactly one callback'. Oracle: valid => 250 and the backend receives exactly the mailbox and the decoded option values, every other field zero; invalid => 5xx and no callback.", len(c11Paths), len(c11MailParams), len(c11RcptParams), c11Mutators, mutParams, strLen, c11Alphabet)
 	run.Assumptions = []string{"deliberately unspecified (not judged): missing angle brackets, space after the colon, irregular spacing, duplicate keywords, value on a flag parameter, domain syntax beyond non-empty, dot-strings with empty atoms, lower-case hex in xtext, unknown ORCPT address types, SIZE >= 2^32, non-ASCII addresses without SMTPUTF8", "a quoted local part may reach the backend quoted or de-quoted"}
 	var cases []C11Case
 	seen := map[string]bool{}
@@ -173,6 +216,7 @@ func C11(tier string) int {
 		seen[k] = true
 		cases = append(cases, C11Case{Cmd: cmd, Arg: arg, Ext: true}, C11Case{Cmd: cmd, Arg: arg, Ext: false})
 	}
+	plain := map[int]bool{} // indices of the unmutated grammar-derived lines
 	mutate := func(cmd, l string) {
 		for i := 0; i < len(l); i++ {
 			add(cmd, l[:i]+l[i+1:])
@@ -189,6 +233,7 @@ func C11(tier string) int {
 				l += " " + x
 			}
 			add("MAIL", l)
+			plain[len(cases)-1], plain[len(cases)-2] = true, true
 			if len(ps) <= mutParams {
 				mutate("MAIL", l)
 			}
@@ -202,6 +247,7 @@ func C11(tier string) int {
 				l += " " + x
 			}
 			add("RCPT", l)
+			plain[len(cases)-1], plain[len(cases)-2] = true, true
 			if len(ps) <= mutParams {
 				mutate("RCPT", l)
 			}
@@ -214,6 +260,18 @@ func C11(tier string) int {
 		for _, v := range map[string][]string{"MAIL": {"mail from:", "Mail From:", "MAIL from:"}, "RCPT": {"rcpt to:", "Rcpt To:", "RCPT to:"}}[c.Cmd] {
 			c2 := c
 			c2.Verb = v
+			cases = append(cases, c2)
+		}
+	}
+	// every grammar-derived line once more after each kind of predecessor on the same connection: nothing of an
+	// earlier MAIL/RCPT line - accepted, refused by the backend or refused for a parameter - may reach the backend
+	for i := 0; i < ng; i++ {
+		if !plain[i] {
+			continue
+		}
+		for _, pre := range []string{"tmp", "open", "refused"} {
+			c2 := cases[i]
+			c2.Pre = pre
 			cases = append(cases, c2)
 		}
 	}
